@@ -5,6 +5,7 @@ import (
 	"encoding/binary"
 	"fmt"
 	"io"
+	"math"
 	"os"
 	"sync"
 
@@ -20,8 +21,12 @@ type FreeList struct {
 	writer          *bufio.Writer
 	outstandingWork types.Work
 	blockPool       []types.Block
-	poolLk          sync.RWMutex
-	flushLock       sync.Mutex
+	// putCount counts the blocks ever put, flushedCount those taken from the
+	// pool by a flush.
+	putCount     uint64
+	flushedCount uint64
+	poolLk       sync.RWMutex
+	flushLock    sync.Mutex
 }
 
 const (
@@ -63,6 +68,7 @@ func (cp *FreeList) Put(blk types.Block) error {
 	cp.poolLk.Lock()
 	defer cp.poolLk.Unlock()
 	cp.blockPool = append(cp.blockPool, blk)
+	cp.putCount++
 	// Offset = 8bytes + Size = 4bytes = 12 Bytes
 	cp.outstandingWork += types.Work(types.SizeBytesLen + types.OffBytesLen)
 	return nil
@@ -84,28 +90,33 @@ func (cp *FreeList) flushBlock(blk types.Block) (types.Work, error) {
 	return types.Work(types.SizeBytesLen + types.OffBytesLen), nil
 }
 
-// Pending returns the number of blocks that were put and not flushed yet.
-func (cp *FreeList) Pending() int {
+// Mark returns a mark that stands for all blocks put so far. FlushTo writes
+// the blocks up to a mark.
+func (cp *FreeList) Mark() uint64 {
 	cp.poolLk.RLock()
 	defer cp.poolLk.RUnlock()
-	return len(cp.blockPool)
+	return cp.putCount
 }
 
 // Flush writes outstanding work and buffered data to the freelist file.
 func (cp *FreeList) Flush() (types.Work, error) {
-	return cp.FlushFirst(-1)
+	return cp.FlushTo(math.MaxUint64)
 }
 
-// FlushFirst writes the n blocks that were put first, and buffered data, to
-// the freelist file. Blocks put after them stay pending for a later flush. A
-// negative n means all blocks.
-func (cp *FreeList) FlushFirst(n int) (types.Work, error) {
+// FlushTo writes the blocks that had been put when the mark was taken, and
+// buffered data, to the freelist file. Blocks put after the mark was taken stay
+// pending for a later flush, also when another flush has meanwhile written
+// some or all of the blocks the mark stands for.
+func (cp *FreeList) FlushTo(mark uint64) (types.Work, error) {
 	cp.flushLock.Lock()
 	defer cp.flushLock.Unlock()
 
 	cp.poolLk.Lock()
-	if n < 0 || n > len(cp.blockPool) {
-		n = len(cp.blockPool)
+	n := len(cp.blockPool)
+	if mark <= cp.flushedCount {
+		n = 0
+	} else if d := mark - cp.flushedCount; d < uint64(n) {
+		n = int(d)
 	}
 	if n == 0 {
 		cp.poolLk.Unlock()
@@ -114,6 +125,7 @@ func (cp *FreeList) FlushFirst(n int) (types.Work, error) {
 	blocks := cp.blockPool[:n]
 	rest := cp.blockPool[n:]
 	cp.blockPool = append(make([]types.Block, 0, blockPoolSize), rest...)
+	cp.flushedCount += uint64(n)
 	cp.outstandingWork = types.Work(len(rest) * (types.SizeBytesLen + types.OffBytesLen))
 	cp.poolLk.Unlock()
 
